@@ -86,8 +86,15 @@ dbg._log = _fake_log
 
 # ================================================================== reference for host trust
 
+DOT_LOOKALIKES = "\u3002\uff0e\uff61"      # IDNA treats these as label separators: "example．com" IS example.com
+
+
 def _toascii(label: str):
-    """Canonical A-label (lower case) or None if the label is not a legal host label."""
+    """Canonical A-label (lower case) or None if the label is not a legal host label.  IDNA's compatibility
+    mapping folds look-alike punctuation (fullwidth / small colon, brackets, slash, at-sign) to ASCII.  The folded
+    text stays PART OF THE LABEL: what follows a fake colon is not a port (only a raw ASCII ':' was split off
+    before), so 'localhost<U+FF1A>evil.com' is the name 'localhost:evil.com' - not localhost, not under .localhost
+    (it is, textually, under a trusted '.com'; host_is_trusted never vetted label characters)."""
     if label == "":
         return None
     try:
@@ -111,6 +118,8 @@ def canon_name(name: str):
             return None
     if "[" in name or "]" in name:
         return None
+    for ch in DOT_LOOKALIKES:
+        name = name.replace(ch, ".")
     labels = name.split(".")
     if len(labels) > 1 and labels[-1] == "":
         labels = labels[:-1]  # one trailing dot
@@ -207,7 +216,20 @@ PORTS2 = [":443", ":8080", ":99999", ":-1", ":08"]
 # dot-prefixed IDN, an address literal with port, and two malformed ones (a malformed entry never helps a host)
 EXTRA_ENTRIES = ["localhost:8080", "LOCALHOST", "*.example.com", "*", "xn--bcher-kva.example", ".bücher.example",
                  "[::1]:80", "[::1", "a..b", "evil.com.", ".com"]
-HOSTS2 = ["localhost", "localhost:8080", "a.localhost", "evillocalhost", "example.com", "a.example.com",
+# wave 6 (seed C20-6b): characters that IDNA / NFKC folds to ASCII punctuation, placed between a trusted name and a
+# foreign tail, and as fake brackets around an address; and the dot look-alikes (those genuinely are dots)
+FAKE_COLONS = ["\uff1a", "\ufe55", "\ufe13"]
+LOOKALIKES = (
+    [t + c + tail for t in ("localhost", "a.localhost", "example.com", "a.example.com", "127.0.0.1", "[::1]",
+                            "bücher.example")
+     for c in FAKE_COLONS for tail in ("evil.com", "80", "80@evil.com")]
+    + ["\uff3b::1\uff3d", "\uff3b::1\uff3d:80", "[::1\uff3d", "\uff3b::1]", "\uff3b::2\uff3d", "\uff3blocalhost\uff3d"]
+    + [t + c + "evil.com" for t in ("localhost", "example.com", "127.0.0.1") for c in ("\uff0f", "\uff20", "\uff1f", "\uff03")]
+    + ["evil.com\uff20localhost", "evil.com\uff0flocalhost", "evil.com\uff1alocalhost"]
+    + ["example\u3002com", "a\uff0eexample.com", "localhost\uff61", "evil\u3002localhost", "a\uff0elocalhost",
+       "evilexample\uff0ecom", "127\uff0e0.0.1", "127.0.0\uff611", "localhost\uff0eevil.com"]
+)
+HOSTS2 = LOOKALIKES + ["localhost", "localhost:8080", "a.localhost", "evillocalhost", "example.com", "a.example.com",
           "evilexample.com", "*.example.com", "*", "x.bücher.example", "xn--bcher-kva.example", "evil.com",
           "evil.com.", "a.evil.com", "com", "a.com", "[::1]", "[::1]:80", "[::2]", "[::1", "a..b", "[", "127.0.0.1"]
 
@@ -700,7 +722,7 @@ def run_B(unit, R, tier):
 
 TRUSTED_CONFIGS = [["localhost"], [".example.com", "[::1]"], [], "localhost", ["*"], ["*.example.com"],
                    [".localhost:5000", "LOCALHOST"], ["[::1", "a..b", "example.com"], ["xn--bcher-kva.example"]]
-B2_HOSTS = ["localhost", "a.localhost", "127.0.0.1", "example.com", "a.example.com", "evilexample.com",
+B2_HOSTS = ["localhost\uff1aevil.com", "127.0.0.1\ufe5580", "a.localhost\ufe13evil.com", "\uff3b::1\uff3d", "localhost", "a.localhost", "127.0.0.1", "example.com", "a.example.com", "evilexample.com",
             "a.example.com:8080", "[::1]", "[::1]:5000", "[::2]", "[::1", "*", "*.example.com", "x", "evil.com",
             "localhost:5000", "LOCALHOST", "bücher.example", "xn--bcher-kva.example", "a..b", None, ""]
 
